@@ -21,7 +21,10 @@ def gen_config(rng):
         'compress': rng.random() < 0.5,
         'digests': rng.random() < 0.85,
         'cdx': rng.random() < 0.7,
-        'max_size': rng.choice([None, None, 300, 1200, 5000]),
+        # (0 is what --warc-max-size inf / 0 parses to: a limit every file exceeds at once)
+        'max_size': rng.choice([None, None, 300, 1200, 5000, 0]),
+        # --warc-move: finished files are moved to another directory
+        'move': rng.random() < 0.15,
         'log': rng.random() < 0.3,
         'appending': rng.random() < 0.3,
         'dedup': rng.random() < 0.25,
@@ -98,6 +101,10 @@ def gen_case(rng, allow=None, n_max=6, deviations=False):
         lo = last['head_len'] + 1
         if lo < len(last['wire']):
             case['stall_last_at'] = rng.randrange(lo, len(last['wire']) + (1 if last['then'] == 'eof' else 0))
+    if case['config']['max_size'] == 0:
+        case['config']['rerun'] = False        # (the fresh second run is about a prefix whose file names it takes over exactly)
+    if case['config'].get('move') and (case['config']['appending'] or case['config']['rerun']):
+        case['config']['move'] = False         # (a later run would not find the files of the earlier one)
     if case['config']['rerun'] and case['config']['max_size'] and not case['config']['appending']:
         case['config']['compress'] = False      # (sizes of gzip members vary with the record ids: file numbering would too)
         case['config']['dedup'] = False
@@ -279,9 +286,16 @@ def run_overlap_case(case, keep_dir=None):
             net.uninstall()
     try:
         netsim.run(main(), timeout=120)
-        for path in sorted(glob.glob(prefix + '*')):
+        for path in sorted(glob.glob(prefix + '*')) + sorted(glob.glob(os.path.join(tmp, 'done', '*'))):
             with open(path, 'rb') as f:
-                obs['files'][os.path.basename(path)] = f.read()
+                data = f.read()
+            name = os.path.basename(path)
+            if name in obs['files']:
+                # the same archive name in the working directory and in the --warc-move directory
+                obs.setdefault('duplicate_names', []).append(name)
+                if len(data) < len(obs['files'][name]):
+                    continue
+            obs['files'][name] = data
         obs['leftover_tmp'] = sorted(os.path.basename(p) for p in glob.glob(os.path.join(tmp, 'tmp-*')))
     finally:
         for h in list(root_logger.handlers):
@@ -338,10 +352,14 @@ def run_case(case, keep_dir=None):
         visits = Visits() if cfg['dedup'] else None
         serial = 0
         for rnd_index, rnd in enumerate(rounds):
+            move_dir = None
+            if cfg.get('move'):
+                move_dir = os.path.join(tmp, 'done')
+                os.makedirs(move_dir, exist_ok=True)
             params = WARCRecorderParams(
                 compress=cfg['compress'], extra_fields=cfg['extra_fields'], temp_dir=tmp, log=cfg['log'],
                 appending=cfg['appending'], digests=cfg['digests'], cdx=cfg['cdx'], max_size=cfg['max_size'],
-                url_table=visits)
+                url_table=visits, move_to=move_dir)
             recorder = WARCRecorder(prefix, params=params)
             responses = []
             if rerun_same:
@@ -386,7 +404,10 @@ def run_case(case, keep_dir=None):
                 read_timeout=0.15 if any(x['then'] == 'hang' for x in responses) else None)
             if case.get('ftp') and rnd_index == len(rounds) - 1:
                 obs['ftp'] = run_ftp_sessions(recorder, case['ftp'])
-            recorder.close()
+            try:
+                recorder.close()
+            except Exception as e:       # noqa: what the recorder raises at the end of a run is part of the observation
+                obs['close_error'] = '{}: {}'.format(type(e).__name__, str(e)[:200])
             if rerun and rnd_index == 0:
                 # everything this run wrote is replaced by the next (non-appending) run
                 continue
@@ -401,9 +422,16 @@ def run_case(case, keep_dir=None):
                     'expect_revisit': bool(visits is not None and i % 4 == 1),
                     'changed_since_archived': bool(visits is not None and i % 4 == 3),
                 })
-        for path in sorted(glob.glob(prefix + '*')):
+        for path in sorted(glob.glob(prefix + '*')) + sorted(glob.glob(os.path.join(tmp, 'done', '*'))):
             with open(path, 'rb') as f:
-                obs['files'][os.path.basename(path)] = f.read()
+                data = f.read()
+            name = os.path.basename(path)
+            if name in obs['files']:
+                # the same archive name in the working directory and in the --warc-move directory
+                obs.setdefault('duplicate_names', []).append(name)
+                if len(data) < len(obs['files'][name]):
+                    continue
+            obs['files'][name] = data
         obs['leftover_tmp'] = sorted(os.path.basename(p) for p in glob.glob(os.path.join(tmp, 'tmp-*')))
     finally:
         for h in list(root_logger.handlers):
